@@ -26,6 +26,10 @@ pub fn doc() -> Vec<u8> {
     // a pair of composite fonts that name each other as descendant (eager references, like /Parent)
     fb.add(20, 0, &Val::dict(vec![("Type", Val::name("Font")), ("Subtype", Val::name("Type0")), ("BaseFont", Val::name("A")), ("Encoding", Val::name("Identity-H")), ("DescendantFonts", Val::Array(vec![Val::r(21)]))]));
     fb.add(21, 0, &Val::dict(vec![("Type", Val::name("Font")), ("Subtype", Val::name("Type0")), ("BaseFont", Val::name("B")), ("Encoding", Val::name("Identity-H")), ("DescendantFonts", Val::Array(vec![Val::r(20)]))]));
+    // two JBIG2 streams that name each other as globals (an optional, eagerly loaded reference: with tolerant options the
+    // entry that closes the cycle is dropped, and what is loaded inside the cycle must not be cached)
+    fb.add(30, 0, &Val::stream(vec![("Filter", Val::name("JBIG2Decode")), ("DecodeParms", Val::dict(vec![("JBIG2Globals", Val::r(31))]))], vec![0, 1]));
+    fb.add(31, 0, &Val::stream(vec![("Filter", Val::name("JBIG2Decode")), ("DecodeParms", Val::dict(vec![("JBIG2Globals", Val::r(30))]))], vec![2, 3]));
     // a ring of three composite fonts (23 -> 24 -> 25 -> 23)
     for (nr, next) in [(23u64, 24u64), (24, 25), (25, 23)] {
         fb.add(nr, 0, &Val::dict(vec![("Type", Val::name("Font")), ("Subtype", Val::name("Type0")), ("BaseFont", Val::name("R")), ("Encoding", Val::name("Identity-H")), ("DescendantFonts", Val::Array(vec![Val::r(next)]))]));
@@ -43,7 +47,9 @@ pub fn doc() -> Vec<u8> {
     fb.bytes()
 }
 
-pub const CALLS: &[&str] = &["get<PagesNode>(3)", "get<PagesNode>(4)", "get<PagesNode>(2)", "get<Font>(9)", "get_page(0)", "resolve(5@objstm)", "get<PagesNode>(10:cyclic)", "get<PagesNode>(11:cyclic)", "get<PagesNode>(119:nested-21-deep)", "resolve(14@objstm2)", "resolve(15@objstm2)", "resolve(6@objstm)", "get<Font>(20:cyclic)", "get<Font>(21:cyclic)", "get<Font>(23:ring-of-3)", "get<Font>(24:ring-of-3)", "get<Font>(25:ring-of-3)"];
+pub const CALLS: &[&str] = &["get<PagesNode>(3)", "get<PagesNode>(4)", "get<PagesNode>(2)", "get<Font>(9)", "get_page(0)", "resolve(5@objstm)", "get<PagesNode>(10:cyclic)", "get<PagesNode>(11:cyclic)", "get<PagesNode>(119:nested-21-deep)", "resolve(14@objstm2)", "resolve(15@objstm2)", "resolve(6@objstm)", "get<Font>(20:cyclic)", "get<Font>(21:cyclic)", "get<Font>(23:ring-of-3)", "get<Font>(24:ring-of-3)", "get<Font>(25:ring-of-3)", "tolerant:get<Stream>(30:globals-cycle)", "tolerant:get<Stream>(31:globals-cycle)", "tolerant:get<Font>(9)"];
+/// calls from this index on make the whole program open the document with tolerant options
+pub const FIRST_TOLERANT_CALL: usize = 17;
 
 fn ev(e: &pdf::error::PdfError) -> String {
     // peel Try / Shared and also FromPrimitive wrappers: the root cause is what is compared
@@ -92,7 +98,21 @@ where
             Ok(p) => crate::common::show_prim(&p),
             Err(e) => ev(&e),
         },
-        n => match res.get::<Font>(Ref::new(PlainRef { id: [20, 21, 23, 24, 25][n - 12], gen: 0 })) {
+        n @ 12..=16 => match res.get::<Font>(Ref::new(PlainRef { id: [20, 21, 23, 24, 25][n - 12], gen: 0 })) {
+            Ok(f) => format!("Font({:?})", f.name.as_ref().map(|n| n.as_str().to_string())),
+            Err(e) => ev(&e),
+        },
+        n @ 17..=18 => match res.get::<Stream<()>>(Ref::new(PlainRef { id: [30, 31][n - 17], gen: 0 })) {
+            Ok(s) => {
+                // how many globals streams hang below each other in the typed value
+                fn depth(s: &Stream<()>) -> usize {
+                    s.info.filters.iter().map(|f| match f { pdf::enc::StreamFilter::JBIG2Decode(p) => p.globals.as_ref().map(|g| 1 + depth(g)).unwrap_or(0), _ => 0 }).max().unwrap_or(0)
+                }
+                format!("Stream(globals-below={})", depth(&s))
+            }
+            Err(e) => ev(&e),
+        },
+        _ => match res.get::<Font>(Ref::new(PlainRef { id: 9, gen: 0 })) {
             Ok(f) => format!("Font({:?})", f.name.as_ref().map(|n| n.as_str().to_string())),
             Err(e) => ev(&e),
         },
@@ -188,10 +208,11 @@ pub fn run_schedule(cfg: &Config, prefix: &[usize]) -> RunResult {
             };
         }};
     }
+    let po = if cfg.plan.iter().flatten().any(|&c| c >= FIRST_TOLERANT_CALL) { pdf::object::ParseOptions::tolerant() } else { pdf::object::ParseOptions::strict() };
     if cfg.cached {
-        body!(FileOptions::uncached().cache(VerifCache::<OCResult>::new(), VerifCache::<SCResult>::new()).load(data.clone()).expect("doc loads"));
+        body!(FileOptions::uncached().cache(VerifCache::<OCResult>::new(), VerifCache::<SCResult>::new()).parse_options(po).load(data.clone()).expect("doc loads"));
     } else {
-        body!(FileOptions::uncached().load(data.clone()).expect("doc loads"));
+        body!(FileOptions::uncached().parse_options(po).load(data.clone()).expect("doc loads"));
     }
     install(None);
     pdf::verif::set_handler(None);
@@ -541,6 +562,11 @@ pub fn configs(tier: Tier) -> Vec<(Config, usize)> {
             // three threads entering a ring of three at three different objects
             v.push((Config { shared_resolver: shared, cached, plan: vec![vec![14], vec![15], vec![16]] }, if cached { 2 } else { 1 }));
             v.push((Config { shared_resolver: shared, cached, plan: vec![vec![14], vec![15]] }, 2));
+            // tolerant options, a cycle through an optional reference: one thread loads a member while the other has an
+            // unrelated load in progress and then loads the other member
+            v.push((Config { shared_resolver: shared, cached, plan: vec![vec![17], vec![19, 18]] }, 2));
+            v.push((Config { shared_resolver: shared, cached, plan: vec![vec![17], vec![18]] }, 2));
+            v.push((Config { shared_resolver: shared, cached, plan: vec![vec![17, 18], vec![19]] }, 2));
         }
     }
     v
@@ -591,7 +617,7 @@ pub fn run(tier: Tier, _seed: u64, tally: &mut Tally) -> CheckMeta {
     CheckMeta {
         prop: "C13",
         level: "model_checking",
-        rule: format!("{} thread programs (2 threads x 1 call for every ordered pair of 6 calls; 2 threads x 2 calls; 3 threads x 1 call; thorough: 2 x 3 calls; a mutually referring pair and a ring of three entered by three threads; compressed objects of two object streams) x {{shared resolver, resolver per thread}} x {{no caches, instrumented compute-once caches}}; every interleaving at the scheduling points (4 hook points in StorageResolver::get, inside each critical section of its guard mutex - which under the feature is a mutex whose blocking the scheduler sees, so a thread can be preempted while it holds the lock and lock / try_lock of the others behave accordingly -, lock/wait/notify of the instrumented cache, thread start/finish) up to the preemption bound ({}) is executed on real threads under a baton-passing scheduler in worker processes; states = schedules executed, transitions = schedule-tree edges. Non-trivial = at least one non-default scheduling choice; distinct by (program, choice vector). Each answer must equal the call run alone; no panic, no deadlock, no process abort, resolver usable afterwards; failing schedules are replayed and must reproduce.", cfgs.len(), if tier.thorough() { "3 for 2 threads, 2 for 3 threads" } else { "2 for 2 threads, 1 for 3 threads" }),
+        rule: format!("{} thread programs (2 threads x 1 call for every ordered pair of 6 calls; 2 threads x 2 calls; 3 threads x 1 call; thorough: 2 x 3 calls; a mutually referring pair and a ring of three entered by three threads; with tolerant options two streams naming each other through an optional reference; compressed objects of two object streams) x {{shared resolver, resolver per thread}} x {{no caches, instrumented compute-once caches}}; every interleaving at the scheduling points (4 hook points in StorageResolver::get, inside each critical section of its guard mutex - which under the feature is a mutex whose blocking the scheduler sees, so a thread can be preempted while it holds the lock and lock / try_lock of the others behave accordingly -, lock/wait/notify of the instrumented cache, thread start/finish) up to the preemption bound ({}) is executed on real threads under a baton-passing scheduler in worker processes; states = schedules executed, transitions = schedule-tree edges. Non-trivial = at least one non-default scheduling choice; distinct by (program, choice vector). Each answer must equal the call run alone; no panic, no deadlock, no process abort, resolver usable afterwards; failing schedules are replayed and must reproduce.", cfgs.len(), if tier.thorough() { "3 for 2 threads, 2 for 3 threads" } else { "2 for 2 threads, 1 for 3 threads" }),
         assumptions: vec![
             "all shared mutable state reachable from these calls is the guard stack (mutex) and the caches (behind the Cache trait); the guard mutex is replaced by pdf::verif::Mutex (same interface, std mutex inside) in the checked build".into(),
             "VerifCache is a transliteration of globalcache 0.2.4 SyncCache::get (source hash checked at self-check; sequential traces compared with the real SyncCache)".into(),
